@@ -83,8 +83,8 @@ func (f *c31File) size() int {
 	return n
 }
 
-// leanStr encodes a byte string as the natural number 1::bytes in base 256
-func leanStr(s string) string {
+// c31LeanStr encodes a byte string as the natural number 1::bytes in base 256
+func c31LeanStr(s string) string {
 	if s == "" {
 		return "1"
 	}
@@ -226,9 +226,9 @@ func c31ParseFile(fset *token.FileSet, af *ast.File, rel string) *c31File {
 				return ".opaq"
 			}
 			if p == "" {
-				return fmt.Sprintf(".localAddr %s", leanStr(s))
+				return fmt.Sprintf(".localAddr %s", c31LeanStr(s))
 			}
-			return fmt.Sprintf(".addr %s %s", leanStr(p), leanStr(s))
+			return fmt.Sprintf(".addr %s %s", c31LeanStr(p), c31LeanStr(s))
 		}
 		if !isReflect(call.Fun, "ValueOf") || len(call.Args) != 1 || call.Ellipsis.IsValid() {
 			return ".opaq"
@@ -236,17 +236,17 @@ func c31ParseFile(fset *token.FileSet, af *ast.File, rel string) *c31File {
 		arg := call.Args[0]
 		if p, s, ok := sym(arg); ok {
 			if p == "" {
-				return fmt.Sprintf(".localPlain %s", leanStr(s))
+				return fmt.Sprintf(".localPlain %s", c31LeanStr(s))
 			}
-			return fmt.Sprintf(".plain %s %s", leanStr(p), leanStr(s))
+			return fmt.Sprintf(".plain %s %s", c31LeanStr(p), c31LeanStr(s))
 		}
 		if conv, ok := arg.(*ast.CallExpr); ok && len(conv.Args) == 1 && !conv.Ellipsis.IsValid() {
 			if t, ok := conv.Fun.(*ast.Ident); ok {
 				if p, s, ok := sym(conv.Args[0]); ok {
 					if p == "" {
-						return fmt.Sprintf(".localConv %s %s", leanStr(t.Name), leanStr(s))
+						return fmt.Sprintf(".localConv %s %s", c31LeanStr(t.Name), c31LeanStr(s))
 					}
-					return fmt.Sprintf(".conv %s %s %s", leanStr(t.Name), leanStr(p), leanStr(s))
+					return fmt.Sprintf(".conv %s %s %s", c31LeanStr(t.Name), c31LeanStr(p), c31LeanStr(s))
 				}
 			}
 		}
@@ -286,9 +286,9 @@ func c31ParseFile(fset *token.FileSet, af *ast.File, rel string) *c31File {
 			return ".opaq"
 		}
 		if p == "" {
-			return fmt.Sprintf(".localNamed %s", leanStr(s))
+			return fmt.Sprintf(".localNamed %s", c31LeanStr(s))
 		}
-		return fmt.Sprintf(".named %s %s", leanStr(p), leanStr(s))
+		return fmt.Sprintf(".named %s %s", c31LeanStr(p), c31LeanStr(s))
 	}
 	strLit := func(e ast.Expr) (string, bool) {
 		if bl, ok := e.(*ast.BasicLit); ok && bl.Kind == token.STRING {
@@ -459,10 +459,10 @@ func c31ParseFile(fset *token.FileSet, af *ast.File, rel string) *c31File {
 				if call.Ellipsis.IsValid() && i == len(call.Args)-1 {
 					ell = "true"
 				}
-				args = append(args, fmt.Sprintf(".ident %s %s", leanStr(a.Name), ell))
+				args = append(args, fmt.Sprintf(".ident %s %s", c31LeanStr(a.Name), ell))
 			case *ast.SelectorExpr:
 				if x, ok := a.X.(*ast.Ident); ok {
-					args = append(args, fmt.Sprintf(".recvField %s %s", leanStr(x.Name), leanStr(a.Sel.Name)))
+					args = append(args, fmt.Sprintf(".recvField %s %s", c31LeanStr(x.Name), c31LeanStr(a.Sel.Name)))
 				} else {
 					args = append(args, ".opaq")
 				}
@@ -470,7 +470,7 @@ func c31ParseFile(fset *token.FileSet, af *ast.File, rel string) *c31File {
 				args = append(args, ".opaq")
 			}
 		}
-		return fmt.Sprintf("%s ⟨%s, %s, [%s]⟩", kind, leanStr(recv.Name), leanStr(sel.Sel.Name), strings.Join(args, ", "))
+		return fmt.Sprintf("%s ⟨%s, %s, [%s]⟩", kind, c31LeanStr(recv.Name), c31LeanStr(sel.Sel.Name), strings.Join(args, ", "))
 	}
 	for _, d := range af.Decls {
 		fd, ok := d.(*ast.FuncDecl)
@@ -552,7 +552,7 @@ func c31ParseFile(fset *token.FileSet, af *ast.File, rel string) *c31File {
 func c31Params(ps []c31Param) string {
 	var s []string
 	for _, p := range ps {
-		s = append(s, fmt.Sprintf("⟨%s, %s, %v⟩", leanStr(p.Name), leanStr(p.Ty), p.Variadic))
+		s = append(s, fmt.Sprintf("⟨%s, %s, %v⟩", c31LeanStr(p.Name), c31LeanStr(p.Ty), p.Variadic))
 	}
 	return "[" + strings.Join(s, ", ") + "]"
 }
@@ -584,7 +584,7 @@ func c31WriteFile(b *bytes.Buffer, id string, f *c31File) {
 	ent := func(es []c31XBind) func(int) string {
 		return func(i int) string {
 			e := es[i]
-			return fmt.Sprintf("⟨%s, %s, %s⟩", leanStr(e.Path), leanStr(e.Key), e.Form)
+			return fmt.Sprintf("⟨%s, %s, %s⟩", c31LeanStr(e.Path), c31LeanStr(e.Key), e.Form)
 		}
 	}
 	binds := chunked("binds", len(f.Binds), "BindE", ent(f.Binds))
@@ -592,27 +592,27 @@ func c31WriteFile(b *bytes.Buffer, id string, f *c31File) {
 	proxies := chunked("proxies", len(f.Proxies), "TypeE", ent(f.Proxies))
 	untypeds := chunked("untypeds", len(f.Untypeds), "UntypedE", func(i int) string {
 		e := f.Untypeds[i]
-		return fmt.Sprintf("⟨%s, %s, %s⟩", leanStr(e.Path), leanStr(e.Key), leanStr(e.Val))
+		return fmt.Sprintf("⟨%s, %s, %s⟩", c31LeanStr(e.Path), c31LeanStr(e.Key), c31LeanStr(e.Val))
 	})
 	wrappers := chunked("wrappers", len(f.Wrappers), "WrapperE", func(i int) string {
 		e := f.Wrappers[i]
 		var ms []string
 		for _, m := range e.Methods {
-			ms = append(ms, leanStr(m))
+			ms = append(ms, c31LeanStr(m))
 		}
-		return fmt.Sprintf("⟨%s, %s, [%s]⟩", leanStr(e.Path), leanStr(e.Key), strings.Join(ms, ", "))
+		return fmt.Sprintf("⟨%s, %s, [%s]⟩", c31LeanStr(e.Path), c31LeanStr(e.Key), strings.Join(ms, ", "))
 	})
 	var declNames []string
 	for i, d := range f.Decls {
 		name := fmt.Sprintf("%s_decl_%d", id, i)
 		declNames = append(declNames, name)
-		fmt.Fprintf(b, "def %s : ProxyDecl := {\n  name := %s\n  fields := [\n", name, leanStr(d.Name))
+		fmt.Fprintf(b, "def %s : ProxyDecl := {\n  name := %s\n  fields := [\n", name, c31LeanStr(d.Name))
 		for j, fd := range d.Fields {
 			sep := ","
 			if j == len(d.Fields)-1 {
 				sep = ""
 			}
-			fmt.Fprintf(b, "    ⟨%s, %v, %s, %s, %s⟩%s\n", leanStr(fd.Name), fd.IsFunc, leanStr(fd.Ty), c31Params(fd.Params), c31Params(fd.Results), sep)
+			fmt.Fprintf(b, "    ⟨%s, %v, %s, %s, %s⟩%s\n", c31LeanStr(fd.Name), fd.IsFunc, c31LeanStr(fd.Ty), c31Params(fd.Params), c31Params(fd.Results), sep)
 		}
 		b.WriteString("  ]\n  methods := [\n")
 		for j, m := range d.Methods {
@@ -620,7 +620,7 @@ func c31WriteFile(b *bytes.Buffer, id string, f *c31File) {
 			if j == len(d.Methods)-1 {
 				sep = ""
 			}
-			fmt.Fprintf(b, "    ⟨%s, %s, %s, %s, %s, %s⟩%s\n", leanStr(m.RecvName), leanStr(m.RecvType), leanStr(m.Name),
+			fmt.Fprintf(b, "    ⟨%s, %s, %s, %s, %s, %s⟩%s\n", c31LeanStr(m.RecvName), c31LeanStr(m.RecvType), c31LeanStr(m.Name),
 				c31Params(m.Params), c31Params(m.Results), m.Body, sep)
 		}
 		b.WriteString("  ] }\n")
@@ -631,16 +631,16 @@ func c31WriteFile(b *bytes.Buffer, id string, f *c31File) {
 	}
 	var ra, al, pk []string
 	for _, a := range f.ReflectAliases {
-		ra = append(ra, leanStr(a))
+		ra = append(ra, c31LeanStr(a))
 	}
 	for _, a := range f.Aliases {
-		al = append(al, fmt.Sprintf("(%s, %s)", leanStr(a[0]), leanStr(a[1])))
+		al = append(al, fmt.Sprintf("(%s, %s)", c31LeanStr(a[0]), c31LeanStr(a[1])))
 	}
 	for _, a := range f.Pkgs {
-		pk = append(pk, fmt.Sprintf("(%s, %s)", leanStr(a[0]), leanStr(a[1])))
+		pk = append(pk, fmt.Sprintf("(%s, %s)", c31LeanStr(a[0]), c31LeanStr(a[1])))
 	}
 	fmt.Fprintf(b, "/-- %s -/\ndef %s : FileTbl := {\n  file := %s\n  active := %v\n  kind := %s\n  ownPath := %s\n  reflectAliases := [%s]\n  aliases := [%s]\n  pkgs := [%s]\n  binds := %s\n  types := %s\n  proxies := %s\n  untypeds := %s\n  wrappers := %s\n  decls := [%s] }\n\n",
-		f.Rel, id, leanStr(f.Rel), f.Active, kind, leanStr(f.OwnPath), strings.Join(ra, ", "), strings.Join(al, ", "), strings.Join(pk, ", "),
+		f.Rel, id, c31LeanStr(f.Rel), f.Active, kind, c31LeanStr(f.OwnPath), strings.Join(ra, ", "), strings.Join(al, ", "), strings.Join(pk, ", "),
 		binds, types, proxies, untypeds, wrappers, strings.Join(declNames, ", "))
 }
 
